@@ -243,7 +243,7 @@ _RX_CACHE = {}
 def regex_to_z3(pattern, flags=0):
     """z3 regular expression of a Python pattern, for the subset: literals, character classes with ranges (also negated),
     \\d \\w \\s, '.', groups, alternation, ? * + {m,n}, a leading ^ and a trailing $.  None when outside the subset (the caller
-    falls back to an uninterpreted function).  ASSUMED: '$' only matches at the very end (Python also accepts a final newline)."""
+    falls back to an uninterpreted function).  '$' matches at the end or just before a final line break, as in Python."""
     key = (pattern, flags)
     if key in _RX_CACHE:
         return _RX_CACHE[key]
@@ -328,7 +328,8 @@ def regex_to_z3(pattern, flags=0):
         if items and items[0][0] is C.AT and items[0][1] in (C.AT_BEGINNING, C.AT_BEGINNING_STRING):
             start, items = True, items[1:]
         if items and items[-1][0] is C.AT and items[-1][1] in (C.AT_END, C.AT_END_STRING):
-            end, items = True, items[:-1]
+            # `$` also matches just before a final line break; `\Z` only at the very end
+            end, items = ('dollar' if items[-1][1] is C.AT_END else 'Z'), items[:-1]
         if any(op is C.AT for op, _ in items):
             raise Bad()
         body = seq(items)
@@ -345,7 +346,7 @@ def _regex_selftest(pattern, flags):
     """guard of the translation: on 60 strings over the pattern's own characters it must agree with Python's `re`"""
     import random
     rng = random.Random(len(pattern) * 7919 + sum(map(ord, pattern)))
-    alphabet = sorted(set(c for c in pattern if c.isalnum() or c in " .,<>=!'+-_$:%#") | set('a0Z9 .'))
+    alphabet = sorted(set(c for c in pattern if c.isalnum() or c in " .,<>=!'+-_$:%#") | set('a0Z9 .\n'))
     for kind in ('match', 'search', 'fullmatch'):
         for _ in range(20):
             txt = ''.join(rng.choice(alphabet) for _ in range(rng.randrange(0, 8)))
@@ -367,6 +368,8 @@ def regex_matches(pattern, kind, s, flags=0):
     if kind == 'search' and not start:
         parts.append(anyseq)
     parts.append(body)
+    if end == 'dollar' and kind != 'fullmatch':
+        parts.append(z3.Option(z3.Re('\n')))
     if kind != 'fullmatch' and not end:
         parts.append(anyseq)
     full = z3.Concat(*parts) if len(parts) > 1 else parts[0]
